@@ -148,6 +148,18 @@ def host_tokens(x):
         toks[0].ws = True
         toks[0].wsmean = "must"
         toks = [ident("view", ctx="sel")] + toks
+    elif c in ("pre-list-func", "in-not-func", "pre-desc-func"):
+        # the functional form `:host(...)` anywhere but in front
+        fn = [simple(":", ctx="sel"), func(sp, ctx="sel", wsmean="mustnot"), delim(".", ctx="sel"), ident("c", ctx="sel", cls=True, wsmean="mustnot"), simple(")", ctx="sel")]
+        if c == "pre-list-func":
+            toks = [delim(".", ctx="sel"), ident("b", ctx="sel", cls=True, wsmean="mustnot"), simple(",", ctx="sel")] + fn
+            toks[3].ws = True
+        elif c == "pre-desc-func":
+            fn[0].wsmean = "mustnot"
+            toks = [ident("view", ctx="sel")] + fn + [delim(".", ctx="sel", ws=True, wsmean="must"), ident("e", ctx="sel", cls=True, wsmean="mustnot")]
+        else:
+            fn[0].wsmean = "mustnot"
+            toks = [simple(":", ctx="sel"), func("not", ctx="sel", wsmean="mustnot")] + fn + [simple(")", ctx="sel")]
     elif c in ("in-is-first", "in-not-desc", "in-has"):
         # `:host` inside a functional pseudo-class with more after it inside the parentheses
         toks[0].wsmean = "mustnot"
@@ -225,6 +237,11 @@ def import_tokens(x):
             mt.append(word("screen"))
         if m in ("all", "all-and-paren"):
             mt.append(word("all"))
+        if m in ("layer-type", "layer-type-and-paren"):
+            mt.append(word("layer"))
+        if m == "layer-type-and-paren":
+            mt.append(word("and"))
+            mt += paren()
         if m == "not-all":
             mt += [word("not"), word("all")]
         if m == "only-screen-and-paren":
